@@ -101,6 +101,15 @@ Definition shape_ok (sh : shape) : bool :=
   && N.eqb (s_replaced sh) 0 && s_registers sh && N.eqb (s_direct_mux sh) 0
   && s_else_is_mux sh && N.eqb (s_mux_calls sh) 1 && N.eqb (s_problems sh) 0.
 
+(* Known defects C19-create-tsdb-unprivileged, C19-logstore-unprivileged, C19-logstore-data-unprivileged: handlers with the
+   authenticated signature that never look at the user. serveFluxQuery (POST /api/v2/query) only answers an error. *)
+Definition known_ignoring (mp : string * string) : bool :=
+  let (m, p) := mp in
+  (String.eqb m "POST" && String.eqb p "/api/v2/query")
+  || (String.eqb m "POST" && String.eqb p "/api/v1/tsdb/{tsdb}")
+  || String.prefix "/api/v1/repository" p || String.prefix "/api/v1/logstream/" p
+  || String.prefix "/repo/{repository}/logstreams/{logStream}/" p.
+
 (* dispatch of a request path by Handler.ServeHTTP: the first prefix rule that matches wins, else the mux *)
 Definition guard_on (enabled_guards : list string) (p : prefix_rule) : bool :=
   String.eqb (p_guard p) "" || existsb (String.eqb (p_guard p)) enabled_guards.
